@@ -10,6 +10,16 @@ from . import schema as S
 from .schema import PRIM_SIZE
 
 KEYWORDS = ["class", "int", "while", "namespace", "template", "double", "char", "xor_eq", "co_await", "requires"]
+# [lex.key] of C++23 plus the alternative tokens: every one of them is swept over a few positions (keyword_sweep)
+ALL_KEYWORDS = """alignas alignof asm auto bool break case catch char char8_t char16_t char32_t class concept const consteval
+constexpr constinit const_cast continue co_await co_return co_yield decltype default delete do double dynamic_cast else enum
+explicit export extern false float for friend goto if inline int long mutable namespace new noexcept nullptr operator private
+protected public register reinterpret_cast requires return short signed sizeof static static_assert static_cast struct switch
+template this thread_local throw true try typedef typeid typename union unsigned using virtual void volatile wchar_t while
+and and_eq bitand bitor compl not not_eq or or_eq xor xor_eq""".split()
+# identifiers reserved to the implementation: sbeppc only warns about them (documented behaviour), so they stay accepted
+RESERVED_NAMES = ["a__b", "__x", "x__", "_Abc", "_X"]
+NOT_RESERVED = ["a_b", "_abc", "x_", "_1a", "A_"]
 NOT_KEYWORDS = ["class_", "Class", "integer", "whiles", "name_space", "doubles", "Char", "xor_equal", "register_", "this_"]
 BAD_NAMES = ["1abc", "a-b", "a b", "a.b", "", "ü", "x+"]
 
@@ -118,6 +128,9 @@ def single_edits(schema, rng, per_rule_cap=6):
             if cur > 0:
                 add("offset-below-minimum", "field@" + where, True, "level", li,
                     lambda l, s, fi=fi, v=cur - 1: setattr(l.fields[fi], "offset", v))
+                if cur > 1:
+                    add("offset-below-minimum", "field-offset-zero@" + where, True, "level", li,
+                        lambda l, s, fi=fi: setattr(l.fields[fi], "offset", 0))
                 add("offset-at-minimum", "field@" + where, False, "level", li,
                     lambda l, s, fi=fi, v=cur: (setattr(l.fields[fi], "offset", v) if l.fields[fi].offset is None else None))
             cur = off + m.field_size(f)
@@ -186,6 +199,9 @@ def single_edits(schema, rng, per_rule_cap=6):
             if cur > 0:
                 add("offset-below-minimum", "element@" + where, True, "composite", ci,
                     lambda c_, s, ei=ei, v=cur - 1: setattr(c_.elements[ei], "offset", v))
+                if cur > 1:
+                    add("offset-below-minimum", "element-offset-zero@" + where, True, "composite", ci,
+                        lambda c_, s, ei=ei: setattr(c_.elements[ei], "offset", 0))
                 add("offset-at-minimum", "element@" + where, False, "composite", ci,
                     lambda c_, s, ei=ei, v=cur: (setattr(c_.elements[ei], "offset", v) if c_.elements[ei].offset is None else None))
             cur = off + m.enc_size(e)
@@ -361,6 +377,53 @@ def single_edits(schema, rng, per_rule_cap=6):
             lst = rng.sample(lst, per_rule_cap)
         out += lst
     return out
+
+
+def keyword_sweep(schema):
+    """Every C++ keyword / alternative token and a few reserved identifiers as the name of: the first field of the first
+    message, the first group, the first data member, the first public non-header type, the first value of the first
+    enum, the first choice of the first set, the first element of the first non-header composite, the first message.
+    Plus identifiers that merely look reserved (must stay accepted)."""
+    edits = []
+    hdr_names = header_composites(schema)
+
+    def add(rule, where, reject, fn):
+        edits.append(Edit(rule, where, reject, fn))
+
+    lv_field = next(((i, lv) for i, (_, _, lv) in enumerate(levels_of(schema)) if lv.fields), None)
+    lv_group = next(((i, lv) for i, (_, _, lv) in enumerate(levels_of(schema)) if lv.groups), None)
+    lv_data = next(((i, lv) for i, (_, _, lv) in enumerate(levels_of(schema)) if lv.data), None)
+    pub = next((i for i, t in enumerate(schema.types) if t.name.lower() not in hdr_names and t.kind == "type"), None)
+    m0 = R.Model(schema)
+    enum_i = next((i for i, e in enumerate(all_enums(schema)) if e.values and m0.enum_prim(e) != "char"), None)
+
+    def add_value(s, i, n):
+        e = all_enums(s)[i]
+        used = {x.value for x in e.values}
+        v = next(str(k) for k in range(1, 120) if str(k) not in used)
+        e.values.append(S.EnumValue(n, v))
+    set_i = next((i for i, e in enumerate(all_sets(schema)) if e.choices), None)
+    comp_i = next((i for i, (c, p) in enumerate(composites_of(schema)) if c.elements and c.name.lower() not in hdr_names), None)
+    for names, rule, reject in ((ALL_KEYWORDS, "keyword-name", True), (RESERVED_NAMES, "reserved-identifier-only-warned", False),
+                                (NOT_RESERVED, "keyword-like-name", False)):
+        for n in names:
+            tag = "sweep:" + n
+            if lv_field:
+                add(rule, "field/" + tag, reject, lambda s, n=n, i=lv_field[0]: setattr(levels_of(s)[i][2].fields[0], "name", n))
+            if lv_group:
+                add(rule, "group/" + tag, reject, lambda s, n=n, i=lv_group[0]: setattr(levels_of(s)[i][2].groups[0], "name", n))
+            if lv_data:
+                add(rule, "data/" + tag, reject, lambda s, n=n, i=lv_data[0]: setattr(levels_of(s)[i][2].data[0], "name", n))
+            if pub is not None:
+                add(rule, "public-type/" + tag, reject, lambda s, n=n, i=pub: rename_type(s, s.types[i], n))
+            if enum_i is not None:
+                add(rule, "validValue/" + tag, reject, lambda s, n=n, i=enum_i: add_value(s, i, n))
+            if set_i is not None:
+                add(rule, "choice/" + tag, reject, lambda s, n=n, i=set_i: setattr(all_sets(s)[i].choices[0], "name", n))
+            if comp_i is not None:
+                add(rule, "element/" + tag, reject, lambda s, n=n, i=comp_i: setattr(composites_of(s)[i][0].elements[0], "name", n))
+            add(rule, "message/" + tag, reject, lambda s, n=n: setattr(s.messages[0], "name", n))
+    return edits
 
 
 def rename_type(s, t, new):
